@@ -1,0 +1,6 @@
+//go:build !verif
+
+package log
+
+// verifPoint is a no-op unless built with the "verif" tag (see verif_hooks.go).
+func verifPoint(string) {}
